@@ -69,7 +69,18 @@ var verifPoisonErr = stderrors.New(VerifPoisonText)
 
 const verifPoisonPath = "\x00POISONED-PATH"
 
+// verifPoisonRegistry knows every format name and accepts no value: a registry field that survives in a borrowed
+// validator shows as a format error.
+type verifPoisonRegistry struct{ strfmt.Registry }
+
+func (verifPoisonRegistry) ContainsName(string) bool      { return true }
+func (verifPoisonRegistry) Validates(string, string) bool { return false }
+
 func verifPoison(obj any) {
+	reg := verifPoisonRegistry{}
+	opt := func() *SchemaValidatorOptions {
+		return &SchemaValidatorOptions{EnableObjectArrayTypeCheck: true, EnableArrayMustHaveItemsCheck: true, skipSchemataResult: true}
+	}
 	i64 := func() *int64 { x := int64(-7777); return &x }
 	f64 := func() *float64 { x := -7777.5; return &x }
 	switch s := obj.(type) {
@@ -84,33 +95,33 @@ func verifPoison(obj any) {
 		s.cachedFieldSchemata = nil
 		s.cachedItemSchemata = nil
 	case *SchemaValidator:
-		*s = SchemaValidator{Path: verifPoisonPath, in: verifPoisonPath}
+		*s = SchemaValidator{Path: verifPoisonPath, in: verifPoisonPath, KnownFormats: reg, Options: opt()}
 	case *objectValidator:
 		*s = objectValidator{Path: verifPoisonPath, In: verifPoisonPath, MaxProperties: i64(), MinProperties: i64(), Required: []string{verifPoisonPath},
-			Properties: map[string]spec.Schema{verifPoisonPath: {}}, PatternProperties: map[string]spec.Schema{"^": {}}, AdditionalProperties: &spec.SchemaOrBool{}}
+			Properties: map[string]spec.Schema{verifPoisonPath: {}}, PatternProperties: map[string]spec.Schema{"^": {}}, AdditionalProperties: &spec.SchemaOrBool{}, KnownFormats: reg, Options: opt()}
 	case *schemaSliceValidator:
-		*s = schemaSliceValidator{Path: verifPoisonPath, In: verifPoisonPath, MaxItems: i64(), MinItems: i64(), UniqueItems: true, AdditionalItems: &spec.SchemaOrBool{}}
+		*s = schemaSliceValidator{Path: verifPoisonPath, In: verifPoisonPath, MaxItems: i64(), MinItems: i64(), UniqueItems: true, AdditionalItems: &spec.SchemaOrBool{}, KnownFormats: reg, Options: opt()}
 	case *itemsValidator:
-		*s = itemsValidator{path: verifPoisonPath, in: verifPoisonPath}
+		*s = itemsValidator{path: verifPoisonPath, in: verifPoisonPath, KnownFormats: reg, Options: opt()}
 	case *basicCommonValidator:
-		*s = basicCommonValidator{Path: verifPoisonPath, In: verifPoisonPath, Default: verifPoisonPath, Enum: []interface{}{verifPoisonPath}}
+		*s = basicCommonValidator{Path: verifPoisonPath, In: verifPoisonPath, Default: verifPoisonPath, Enum: []interface{}{verifPoisonPath}, Options: opt()}
 	case *HeaderValidator:
-		*s = HeaderValidator{name: verifPoisonPath}
+		*s = HeaderValidator{name: verifPoisonPath, KnownFormats: reg, Options: opt()}
 	case *ParamValidator:
-		*s = ParamValidator{}
+		*s = ParamValidator{KnownFormats: reg, Options: opt()}
 	case *basicSliceValidator:
-		*s = basicSliceValidator{Path: verifPoisonPath, In: verifPoisonPath, Default: verifPoisonPath, MaxItems: i64(), MinItems: i64(), UniqueItems: true}
+		*s = basicSliceValidator{Path: verifPoisonPath, In: verifPoisonPath, Default: verifPoisonPath, MaxItems: i64(), MinItems: i64(), UniqueItems: true, KnownFormats: reg, Options: opt()}
 	case *numberValidator:
 		*s = numberValidator{Path: verifPoisonPath, In: verifPoisonPath, Default: verifPoisonPath, MultipleOf: f64(), Maximum: f64(), Minimum: f64(),
-			ExclusiveMaximum: true, ExclusiveMinimum: true, Type: verifPoisonPath, Format: verifPoisonPath}
+			ExclusiveMaximum: true, ExclusiveMinimum: true, Type: verifPoisonPath, Format: verifPoisonPath, Options: opt()}
 	case *stringValidator:
-		*s = stringValidator{Path: verifPoisonPath, In: verifPoisonPath, Default: verifPoisonPath, Required: true, MaxLength: i64(), MinLength: i64(), Pattern: "(" + verifPoisonPath}
+		*s = stringValidator{Path: verifPoisonPath, In: verifPoisonPath, Default: verifPoisonPath, Required: true, MaxLength: i64(), MinLength: i64(), Pattern: "(" + verifPoisonPath, Options: opt()}
 	case *schemaPropsValidator:
-		*s = schemaPropsValidator{Path: verifPoisonPath, In: verifPoisonPath}
+		*s = schemaPropsValidator{Path: verifPoisonPath, In: verifPoisonPath, KnownFormats: reg, Options: opt()}
 	case *formatValidator:
-		*s = formatValidator{Path: verifPoisonPath, In: verifPoisonPath, Format: verifPoisonPath}
+		*s = formatValidator{Path: verifPoisonPath, In: verifPoisonPath, Format: verifPoisonPath, KnownFormats: reg, Options: opt()}
 	case *typeValidator:
-		*s = typeValidator{Path: verifPoisonPath, In: verifPoisonPath, Type: spec.StringOrArray{verifPoisonPath}, Format: verifPoisonPath}
+		*s = typeValidator{Path: verifPoisonPath, In: verifPoisonPath, Type: spec.StringOrArray{verifPoisonPath}, Format: verifPoisonPath, Options: opt()}
 	case *spec.Schema:
 		*s = spec.Schema{SchemaProps: spec.SchemaProps{Description: verifPoisonPath, Default: verifPoisonPath, Type: spec.StringOrArray{verifPoisonPath}}}
 	}
